@@ -30,9 +30,10 @@ BUDGET = {"quick": 80, "thorough": 900}
 RULE = (
     "case = (parser variant, generated well-formed token list, 1-3 token-level "
     "faults from {delete, duplicate, swap, replace-by-vocabulary-token, truncate, "
-    "truncate-inside-quoted/units}); thorough also enumerates every single fault at "
-    "every position of base documents and every token sequence of length <= 5 over "
-    "a 14-token vocabulary. Non-trivial = the faulted list is rejected by the "
+    "truncate-inside-quoted/units, bad character, nested units delimiter, units "
+    "that lost their '>'}); every single fault at every position of three "
+    "hand-written base documents x 6 variants; every token sequence of length <= 4 "
+    "(quick; 5 for the default loader) / 5 (thorough) over a 14-token vocabulary. Non-trivial = the faulted list is rejected by the "
     "reference recogniser (ill-formed before END/EOF); distinct by (dialect, text). "
     "Cases the specifications do not settle (empty block, block names differing "
     "only in case, NULL/TRUE/FALSE as a name, set containing a sequence, empty ODL "
@@ -82,6 +83,13 @@ def apply_faults(tokens, faults):
             toks.insert(i, (ch, "badchar", None))
         elif kind == "badunits":
             toks.insert(i, ("<m<s>", "badunits", None))
+        elif kind == "unclose":
+            # the first units expression at or after i loses its '>' and the text
+            # goes on: whatever follows, up to the next '>', is swallowed by it
+            for j in list(range(i, len(toks))) + list(range(0, i)):
+                if toks[j][1] == "units" and ">" not in toks[j][0][:-1]:
+                    toks[j] = (toks[j][0][:-1], "badunits", None)
+                    break
         elif kind == "cut":
             # truncate inside the first quoted/units token at or after i
             for j in list(range(i, len(toks))) + list(range(0, i)):
@@ -113,6 +121,8 @@ def fault_strategy():
         st.tuples(st.just("cut"), idx, idx),
         st.tuples(st.just("badchar"), idx, idx),
         st.tuples(st.just("badunits"), idx),
+        st.tuples(st.just("unclose"), idx),
+        st.tuples(st.just("unclose"), idx),
     )
     return st.lists(one, min_size=1, max_size=3)
 
@@ -233,10 +243,63 @@ def exhaustive_sequences(acc, d, first, length):
             acc.fail(sig, dict(dialect=d, tokens=[list(t) for t in toks]), detail)
 
 
+def _base_documents():
+    T = gt.T
+    num = lambda t: T(t, "word", ("float", float(t).hex()) if "." in t else ("int", int(t)))
+    s = lambda t: T(t, "word", ("str", t))
+    q = lambda t: T('"' + t + '"', "quoted", ("str", t))
+    u = lambda t: T("<" + t + ">", "units", t)
+    EQ, SC = T("=", "eq"), T(";", "semi")
+    O, C, SO, SC_, CM = T("(", "open"), T(")", "close"), T("{", "open"), T("}", "close"), \
+        T(",", "comma")
+    doc1 = [T("PDS_VERSION_ID"), EQ, s("PDS3"), SC, T("EXPOSURE_DURATION"), EQ, num("1.5"),
+            u("s"), T("FOCAL_LENGTH"), EQ, num("352"), u("mm"), T("NOTE"), EQ,
+            q("a text string"), T("OBJECT"), EQ, T("IMAGE"), T("LINES"), EQ, num("10"),
+            T("LINE_SAMPLES"), EQ, num("20"), T("END_OBJECT"), EQ, T("IMAGE"),
+            T("END", "end")]
+    doc2 = [T("GROUP"), EQ, T("outer"), T("A"), EQ, O, num("1"), CM, num("2.5"), u("m"),
+            CM, T("'sym'", "quoted", ("str", "sym")), C, T("OBJECT"), EQ, T("inner"),
+            T("B"), EQ, SO, s("x"), CM, s("y"), SC_, T("C"), EQ,
+            T("2#101#", "word", ("int", 5)), T("END_OBJECT"), T("D"), EQ, q("q"), SC,
+            T("END_GROUP"), EQ, T("outer"), T("E"), EQ, num("3"), u("km"),
+            T("END", "end")]
+    doc3 = [T("a"), EQ, num("1"), T("b"), EQ, O, O, num("1"), CM, num("2"), C, CM, O,
+            num("3"), CM, num("4"), C, C, T("c"), EQ, num("5"), u("m"), T("d"), EQ,
+            num("6"), u("s")]
+    return [doc1, doc2, doc3]
+
+
+def single_faults(acc, d):
+    """Every single fault at every position of three hand-written base documents."""
+    for base in _base_documents():
+        why = refread.recognise(base, d)
+        if why[0] != "ok":
+            raise RuntimeError(f"harness: base document not accepted: {why}")
+        n = len(base)
+        faults = []
+        for i in range(n):
+            faults += [("delete", i), ("dup", i), ("swap", i), ("truncate", i),
+                       ("cut", i, 1), ("cut", i, 2), ("badchar", i, 0),
+                       ("badchar", i, 1), ("badunits", i), ("unclose", i)]
+            faults += [("replace", i, k) for k in range(len(PUNCT) + 4)]
+        for f in faults:
+            toks = apply_faults(base, [f])
+            v, sig, detail = judge(d, toks)
+            acc.event(f"single:{v}")
+            if v == "ambiguous":
+                continue
+            text = render(toks)
+            nt = v in ("ill-rejected", "fail")
+            acc.case(key=d + "\0" + text, nontrivial=nt)
+            if v == "fail":
+                acc.fail(sig, dict(dialect=d, tokens=[list(t) for t in toks]), detail)
+
+
 def shards(tier, seed):
     n = 260 if tier == "quick" else 7000
     out = [("random_cases", dict(d=PARSERS[j % 6], n=n, seed=seed * 1000 + j))
            for j in range(18)]
+    out += [("single_faults", dict(d=d)) for d in PARSERS]
     maxlen = 4 if tier == "quick" else 5
     for d in ("PVL", "default") if tier == "quick" else PARSERS:
         for length in range(1, maxlen + 1):
